@@ -13,7 +13,7 @@ export const SPELLINGS = [
 ];
 export const SUFFIXES = [[], ['m1'], ['m1', 'm2'], ['zeta', 'alpha'], ['snap-to-grid'], ['2x', 'm1']];
 export const NSARGS = [null, 'arg1', 'argCamel'];
-export const VALUE_FORMS = ['expr', 'call', 'arr1', 'arrArgStr', 'arrArgExpr', 'arrMods', 'arrArgStrMods', 'arrArgExprMods', 'str', 'none', 'arrEmptyMods', 'jsxEl', 'jsxElBraced', 'jsxFrag', 'strEntity', 'arr1ArrayValue'];
+export const VALUE_FORMS = ['expr', 'call', 'arr1', 'arrArgStr', 'arrArgExpr', 'arrMods', 'arrArgStrMods', 'arrArgExprMods', 'str', 'none', 'arrEmptyMods', 'jsxEl', 'jsxElBraced', 'jsxFrag', 'strEntity', 'arr1ArrayValue', 'arrArgMember', 'arrArgCall', 'arrArgCond', 'arrArgCallMods', 'arrArgTpl', 'strEmpty', 'strBlank'];
 export const HOSTKINDS = ['element', 'component'];
 export const NEIGHBOURS = ['none', 'attrBefore', 'attrAfter', 'secondDir', 'sameDirTwice', 'withShow', 'spreadBefore', 'classAndChild'];
 
@@ -33,6 +33,15 @@ export function makeDirective(b, spelling, suffixes, nsArg, form, tagN) {
     case 'arr1': valSrc = `{[${leafVal(g())}]}`; break;
     case 'arrArgStr': valSrc = `{[${leafVal(g())}, "sarg${tagN}"]}`; if (!nsArg) den.arg = { k: 'str', v: `sarg${tagN}` }; mods = null; break;
     case 'arrArgExpr': { const a = g(); valSrc = `{[${leafVal(g())}, ${a}]}`; if (!nsArg) den.arg = { k: 'leaf', i: b.leaf(a) }; mods = null; break; }
+    // the argument slot takes any expression
+    case 'arrArgMember': { const o = b.global({ k: 'obj', v: { side: { k: 'str', v: `side${tagN}` } } }); const a = `${o}.side`; valSrc = `{[${leafVal(g())}, ${a}]}`; if (!nsArg) den.arg = { k: 'leaf', i: b.leaf(a) }; mods = null; break; }
+    case 'arrArgCall': { const f = b.fnGlobal({ k: 'str', v: `carg${tagN}` }); const a = `${f}()`; valSrc = `{[${leafVal(g())}, ${a}]}`; if (!nsArg) den.arg = { k: 'leaf', i: b.leaf(a) }; mods = null; break; }
+    case 'arrArgCond': { const c = b.global({ k: 'bool', v: true }); const a = `${c} ? "left${tagN}" : "right"`; valSrc = `{[${leafVal(g())}, ${a}]}`; if (!nsArg) den.arg = { k: 'leaf', i: b.leaf(a) }; mods = null; break; }
+    case 'arrArgCallMods': { const f = b.fnGlobal({ k: 'str', v: `carg${tagN}` }); const a = `${f}()`; valSrc = `{[${leafVal(g())}, ${a}, ["top"]]}`; if (!nsArg) den.arg = { k: 'leaf', i: b.leaf(a) }; mods = ['top']; break; }
+    case 'arrArgTpl': { const x = b.global({ k: 'str', v: `t${tagN}` }); const a = '`a-${' + x + '}`'; valSrc = `{[${leafVal(g())}, ${a}]}`; if (!nsArg) den.arg = { k: 'leaf', i: b.leaf(a) }; mods = null; break; }
+    // an empty / blank string is a value like any other string
+    case 'strEmpty': valSrc = '""'; den.value = { k: 'str', v: '' }; break;
+    case 'strBlank': valSrc = '" "'; den.value = { k: 'str', v: ' ' }; break;
     case 'arrMods': valSrc = `{[${leafVal(g())}, ["ma", "mb"]]}`; mods = ['ma', 'mb']; break;
     case 'arrEmptyMods': valSrc = `{[${leafVal(g())}, []]}`; mods = []; break;
     case 'arrArgStrMods': valSrc = `{[${leafVal(g())}, "sarg${tagN}", ["mz", "ma"]]}`; if (!nsArg) den.arg = { k: 'str', v: `sarg${tagN}` }; mods = ['mz', 'ma']; break;
@@ -48,8 +57,8 @@ export function makeDirective(b, spelling, suffixes, nsArg, form, tagN) {
     default: throw new Error(form);
   }
   // a suffix list together with an array form that carries its own argument/modifier slots is not decided by the statement
-  const ambiguous = suffixes.length > 0 && ['arrArgStr', 'arrArgExpr', 'arrMods', 'arrArgStrMods', 'arrArgExprMods', 'arrEmptyMods'].includes(form);
-  const ambiguous2 = nsArg && ['arrArgStr', 'arrArgExpr', 'arrArgStrMods', 'arrArgExprMods'].includes(form);
+  const ambiguous = suffixes.length > 0 && ['arrArgMember', 'arrArgCall', 'arrArgCond', 'arrArgCallMods', 'arrArgTpl', 'arrArgStr', 'arrArgExpr', 'arrMods', 'arrArgStrMods', 'arrArgExprMods', 'arrEmptyMods'].includes(form);
+  const ambiguous2 = nsArg && ['arrArgMember', 'arrArgCall', 'arrArgCond', 'arrArgCallMods', 'arrArgTpl', 'arrArgStr', 'arrArgExpr', 'arrArgStrMods', 'arrArgExprMods'].includes(form);
   if (ambiguous || ambiguous2) return null;
   den.mods = mods ?? [];
   return { t: 'dir', den, src: valSrc === null ? attrName : `${attrName}=${valSrc}` };
